@@ -251,10 +251,11 @@ def scenario_from_trace(name, res):
 
 
 def run_chain_identity(c):
-    """HOOK for the chain-service side of part (c) (chain.addBlock / ChainService.errBlocks: a forged block must not be stored
-    or cached as bad under the announced identifier, DESIGN §6-e).  Built by the coordinator on ChainDB.tla; deliberately a
-    no-op here."""
-    return None
+    """The chain-service side of part (c) (chain.addBlock / ChainService.errBlocks): a forged block must not be stored or
+    cached as bad under the announced identifier (DESIGN §6-e).  Forged-before-genuine deliveries on a real node:
+    checks/c18_chain.py + harness/internal/verifnode/verif_identity_test.go."""
+    from checks import c18_chain
+    return c18_chain.run_chain_identity(c)
 
 
 # --------------------------------------------------------------------------- the check
